@@ -107,9 +107,12 @@ PwlTranscriptionAgrees ==
 \*     tight range lies inside the loose one) can only lower it
 GridOptSane ==
   (req.done /\ req.gridknown /\ req.gridopt # NoOpt) =>
-      /\ LET rows == [e \in Et |-> CostRowOf(cfg, e)] IN \E d \in Dispatches(cfg) : Feasible(cfg, d) /\ GridCostR(rows, d) = req.gridopt
+      /\ LET rows == RowsOf(cfg) IN \E d \in Dispatches(cfg) : Feasible(cfg, d) /\ GridCostR(rows, d) = req.gridopt
       /\ LET loose == [cfg EXCEPT !.plim = "loose"]
          IN  (cfg.plim = "tight" /\ Cardinality(Dispatches(loose)) <= GridModelMax) => GridOpt(loose) <= req.gridopt
-\* (6) the grid stays within the enumeration budget
+\* (6) the transcription of make_objective.py deviates from the user's functions only in the classes that are recorded as
+\*     findings; a deviation of another kind (e.g. after a change of the transcription) must not pass unnoticed
+NoUnclassifiedDeviation == req.done => req.dev \subseteq {"inverted_poly_c2_c0", "poly_c0_dropped_next_to_pwl", "inverted_qpoly_c2_c0"}
+\* (7) the grid stays within the enumeration budget
 GridSmall == req.done => Cardinality(Dispatches(cfg)) <= 6 * 6 * 6 * 6 * 3
 =============================================================================
